@@ -24,7 +24,7 @@ func checkC20(c *Ctx) {
 	c.Rule("C20-R4", "hLayout/vLayout: the remainder loop decrements resid every cycle; resid is zero when the total fill is zero")
 	c.Rule("C20-R5", "ViewPort.Resize clips the extent against the parent measured from the requested origin: width is the argument or (parent width - x), height the argument or (parent height - y)")
 	c.Expect("C20-R5", 2)
-	for r, n := range map[string]int{"C20-R1": 9, "C20-R2": 4, "C20-R3": 6, "C20-R4": 4} {
+	for r, n := range map[string]int{"C20-R1": 11, "C20-R2": 4, "C20-R3": 6, "C20-R4": 4} {
 		c.Expect(r, n)
 	}
 	p := c.P("linux")
@@ -75,7 +75,9 @@ func checkC20(c *Ctx) {
 			}
 		}
 		// the clamp depends on limx/limy and width/height: the two setters must re-clamp
-		if name == "SetContentSize" || name == "SetSize" {
+		// (the auto-grow of the limits in SetContent only ever raises lim-size, which cannot invalidate the
+		// upper clamp; it is not listed)
+		if name == "SetContentSize" || name == "SetSize" || name == "Resize" {
 			for _, f := range []string{"limx", "limy", "width", "height"} {
 				for i, st := range storesTo(fn, vpOwner, f) {
 					all := map[ssa.Instruction]bool{}
